@@ -145,17 +145,19 @@ def histories(which):
     dx = float(rng.uniform(0.05, 3))
     ifg = I(vary_layout(rng, z.copy()).copy(order='K'), dx=dx)      # the map in any memory layout
     if which == 'random-history':
-        ops = ['read-xy', 'read-rt', 'remove_piston', 'remove_tiptilt', 'remove_power', 'recenter', 'latcal', 'strip_latcal', 'pad',
+        ops = ['read-xy', 'read-rt', 'read-x', 'read-y', 'read-r', 'read-t', 'remove_piston', 'remove_tiptilt', 'remove_power', 'recenter', 'latcal', 'strip_latcal', 'pad',
                'crop', 'mask', 'fill', 'spike_clip', 'filter']
         results = []
         for step in range(int(rng.integers(1, 9))):
             op = str(rng.choice(ops))
             before = np.isnan(ifg.data).copy()
-            keep_validity = op in ('read-xy', 'read-rt', 'remove_piston', 'remove_tiptilt', 'remove_power', 'recenter', 'latcal', 'strip_latcal')
+            keep_validity = op in ('read-xy', 'read-rt', 'read-x', 'read-y', 'read-r', 'read-t', 'remove_piston', 'remove_tiptilt', 'remove_power', 'recenter', 'latcal', 'strip_latcal')
             if op == 'read-xy':
                 ifg.x, ifg.y
             elif op == 'read-rt':
                 ifg.r, ifg.t
+            elif op in ('read-x', 'read-y', 'read-r', 'read-t'):
+                getattr(ifg, op[-1])          # one coordinate alone (the usual `mask(circle(R, ifg.r))` idiom reads only r)
             elif op == 'latcal':
                 ifg.latcal(float(rng.uniform(0.05, 3)))
             elif op == 'pad':
@@ -236,6 +238,9 @@ def histories(which):
         ifg.remove_power()
         check('power-removal-idempotent', bool(np.allclose(b, ifg.data, atol=1e-8, equal_nan=True)))
         nvalid = int(np.isfinite(ifg.data).sum())
+        for c in 'xyrt':
+            if rng.random() < 0.35:
+                getattr(ifg, c)          # any subset of the coordinates read (cached) before the crop
         ifg.crop()
         s1 = ifg.data.shape
         check('crop-keeps-every-valid-sample', int(np.isfinite(ifg.data).sum()) == nvalid)
